@@ -111,11 +111,18 @@ type Params map[string]string
 // requests.
 type Handler func(http.ResponseWriter, *http.Request, Params)
 
+// segmentText returns the text of the segment without the optional marker: the
+// long form of a route with an optional last segment duplicates the same route
+// without the marker.
+func segmentText(s *Segment) string {
+	return "/" + strings.TrimPrefix(s.String()[1:], "?")
+}
+
 // addLeaf adds a new leaf from the given segment.
 func addLeaf(t Tree, r *Route, s *Segment, h Handler) (Leaf, error) {
 	leaves := t.getLeaves()
 	for _, l := range leaves {
-		if l.getSegment().String() == s.String() {
+		if segmentText(l.getSegment()) == segmentText(s) {
 			return nil, errors.Errorf("duplicated route %q", r.String())
 		}
 	}
